@@ -5,6 +5,7 @@ CONSTANTS
   RecheckUnderLock = TRUE
   NotifyAfterPush = TRUE
   DrainRechecks = TRUE
+  DrainCountsAll = TRUE
 SPECIFICATION FairSpec
 INVARIANT TypeOK
 INVARIANT CountsAgree
